@@ -277,7 +277,7 @@ func c11richTemplates(r *rng) []c11richProg {
 				"func producer(n int, ch chan int) { for i := 0; i < n; i++ { ch <- i * i }; close(ch) }",
 			},
 			Body: []string{
-				fmt.Sprintf("ch := make(chan int, %d)", 2+D),
+				fmt.Sprintf("ch := make(chan int, %d)", 8+D),
 				fmt.Sprintf("producer(%d, ch)", 1+C),
 				"for v := range ch { acc += v }",
 				"fmt.Println(acc)",
